@@ -17,6 +17,15 @@ ENGINES = [
 ]
 NOT_APPLICABLE = {}
 CHECKS = {
+    "C08": dict(
+        engine="fsmodel + hist (on zsym)", level="fault_enumeration", design_ref="DESIGN.md section 4 / C08",
+        technique="symbolic execution (zsym/z3) of the real save path on an in-memory file system whose every effect is a fault/crash point: failing effect, raising tensor/callback, threshold and shard limit are symbolic integers; crash oracle at every effect boundary",
+        text=("The real _io.save -> unload_from_model -> _write_external_tensors -> _write_external_data -> _ExternalDataWriter and the real ExternalTensor run on an in-memory POSIX-subset file system. For 8 scenarios (no destination, foreign "
+              "destination, re-save onto the model's own data file, own + other backing file, symlinked destination, hard-linked destination, sharded, sharded with colliding shard) and their max_workers=2 variants on virtual threads, "
+              "the index of the failing file-system effect, of the raising tensor (before writing / after half of its bytes) and of the raising callback, the size threshold and the shard limit are symbolic; on every path and at EVERY effect "
+              "boundary (process death) the destination holds old or complete-new bytes and no other pre-existing file changed; after a failure: old bytes, no temporary leftovers, tensors valid and readable; invalid only if replaced."),
+        note="Trusted: z3; the file-system model's contracts (atomic replace, in-place truncate/write, mmap follows the inode) - kernel durability/fsync ordering is not modelled; one fault per save; serde/onnx.save stubbed.",
+    ),
     "C09": dict(
         engine="vthreads + hist (on zsym)", level="model_checking", design_ref="DESIGN.md section 4 / C09",
         technique="SMT (z3): inductive invariant of the real _ByteBudget on arbitrary symbolic states; bounded model checking of the real writers on virtual threads (all interleavings at synchronisation points up to a preemption bound; sizes, capacity and failing tensor symbolic)",
